@@ -148,6 +148,7 @@ type loopTr struct {
 	preVars map[string]lty // variables in scope at function entry besides the parameters
 	globals map[string]lty // package-level variables emitted as Lean definitions
 	elem    bool           // element mode (elements.go)
+	msm     bool           // bucket-method mode (msmchunk.go)
 	curIV   string         // innermost loop variable
 	recv    func(iv string) string // translation of a channel receive inside the loop over `iv`
 	recvTy  lty
@@ -179,6 +180,10 @@ func goType(e ast.Expr) (lty, bool) {
 		return tTr, true
 	case "big.Int":
 		return tBig, true
+	case "PointProj", "*PointProj":
+		return tG, true
+	case "[]PointProj", "[]PointAffine":
+		return tListG, true
 	}
 	return 0, false
 }
@@ -213,6 +218,9 @@ func (t *loopTr) typeOf(e ast.Expr) lty {
 	case *ast.Ident:
 		if x.Name == "true" || x.Name == "false" {
 			return tBool
+		}
+		if t.msm && x.Name == "Identity" {
+			return tG
 		}
 		if t.labels[t.labelPrefix+x.Name] {
 			return tBytes
@@ -268,7 +276,7 @@ func (t *loopTr) typeOf(e ast.Expr) lty {
 		switch fn {
 		case "fr.One", "One", "fr.Zero", "Zero":
 			return tK
-		case "len", "int", "uint64", "uint8", "uint32":
+		case "len", "int", "uint64", "uint8", "uint32", "digit":
 			return tInt
 		case "fr.BatchInvert", "BatchInvert", "computeBVector":
 			return tListK
@@ -347,7 +355,13 @@ func (t *loopTr) intExpr(e ast.Expr) string {
 			return "(" + t.intExpr(x.X) + " " + op + " " + t.intExpr(x.Y) + ")"
 		}
 		if x.Op == token.AND {
+			if u, ok := x.Y.(*ast.UnaryExpr); ok && u.Op == token.XOR {
+				return "(Loop.bandNot " + t.intExpr(x.X) + " " + t.intExpr(u.X) + ")"
+			}
 			return "(Loop.band " + t.intExpr(x.X) + " " + t.intExpr(x.Y) + ")"
+		}
+		if x.Op == token.AND_NOT {
+			return "(Loop.bandNot " + t.intExpr(x.X) + " " + t.intExpr(x.Y) + ")"
 		}
 		if x.Op == token.SHL {
 			return "(Loop.shl " + t.intExpr(x.X) + " " + t.intExpr(x.Y) + ")"
@@ -356,6 +370,11 @@ func (t *loopTr) intExpr(e ast.Expr) string {
 		switch exprStr(x.Fun) {
 		case "int", "uint64", "uint8", "uint32":
 			return t.intExpr(x.Args[0])
+		case "digit":
+			if !t.msm {
+				die("loops: digit() outside bucket-method mode")
+			}
+			return "(digit " + t.intExpr(x.Args[0]) + ")"
 		case "len":
 			return "(((" + t.valExpr(x.Args[0]) + ").length : Nat) : Int)"
 		}
@@ -522,6 +541,9 @@ func (t *loopTr) valExpr(e ast.Expr) string {
 		if x.Name == "true" || x.Name == "false" {
 			return x.Name
 		}
+		if t.msm && x.Name == "Identity" {
+			return "(0 : G)"
+		}
 		if t.labels[t.labelPrefix+x.Name] {
 			return t.labelPrefix + x.Name
 		}
@@ -594,7 +616,7 @@ func (t *loopTr) valExpr(e ast.Expr) string {
 				die("loops: BatchInvert used before it is translated")
 			}
 			return "(" + t.lookupFn("BatchInvert").name + " " + t.valExpr(x.Args[0]) + ")"
-		case "int", "uint64", "uint8", "uint32", "len":
+		case "int", "uint64", "uint8", "uint32", "len", "digit":
 			return t.intExpr(e)
 		case "computeBVector":
 			return "(bvec " + t.valExpr(x.Args[1]) + ")"
@@ -764,7 +786,7 @@ func (t *loopTr) assigned(stmts []ast.Stmt) []string {
 	return order
 }
 
-var fieldMethods = map[string]int{"Mul": 2, "Add": 2, "Sub": 2, "Inverse": 1, "SetUint64": 1, "Set": 1, "Neg": 1, "SetOne": 0, "SetZero": 0, "Square": 1, "Double": 1, "ScalarMul": 2, "SetIdentity": 0}
+var fieldMethods = map[string]int{"Mul": 2, "Add": 2, "Sub": 2, "Inverse": 1, "SetUint64": 1, "Set": 1, "Neg": 1, "SetOne": 0, "SetZero": 0, "Square": 1, "Double": 1, "ScalarMul": 2, "SetIdentity": 0, "FromAffine": 1}
 
 func hasJump(stmts []ast.Stmt) bool {
 	found := false
@@ -982,6 +1004,28 @@ func (t *loopTr) block(ind string, stmts []ast.Stmt, k string, cont string) {
 					}
 				}
 			}
+			if len(x.Lhs) > 1 && len(x.Rhs) == len(x.Lhs) && x.Tok == token.DEFINE {
+				// `a, b := e1, e2` with right-hand sides that do not mention the new names
+				for j, l := range x.Lhs {
+					id, ok := l.(*ast.Ident)
+					if !ok {
+						die("loops: %s: unsupported parallel definition", t.cur.name)
+					}
+					ast.Inspect(x.Rhs[j], func(n ast.Node) bool {
+						if r, ok := n.(*ast.Ident); ok {
+							for _, l2 := range x.Lhs {
+								if exprStr(l2) == r.Name {
+									die("loops: %s: parallel definition reads one of its targets", t.cur.name)
+								}
+							}
+						}
+						return true
+					})
+					ty := t.typeOf(x.Rhs[j])
+					t.assign(ind, id, t.valExpr(x.Rhs[j]), true, ty)
+				}
+				continue
+			}
 			if len(x.Lhs) > 1 && len(x.Rhs) == 1 {
 				c, ok := x.Rhs[0].(*ast.CallExpr)
 				f := (*loopFn)(nil)
@@ -1093,7 +1137,10 @@ func (t *loopTr) block(ind string, stmts []ast.Stmt, k string, cont string) {
 				v = a(0) + " * " + a(0)
 			case "Double":
 				v = a(0) + " + " + a(0)
-			case "Set":
+				if t.msm {
+					v = "dbl " + a(0)
+				}
+			case "Set", "FromAffine":
 				v = a(0)
 			case "SetOne":
 				v = "1"
@@ -1117,6 +1164,21 @@ func (t *loopTr) block(ind string, stmts []ast.Stmt, k string, cont string) {
 					t.block(ind+"  ", rest, k, cont)
 					return
 				}
+			}
+			if t.msm && x.Init == nil && x.Else != nil {
+				// both branches continue with the rest of the block
+				eb, ok := x.Else.(*ast.BlockStmt)
+				if !ok {
+					die("loops: %s: unsupported else-if", t.cur.name)
+				}
+				fmt.Fprintf(t.sb, "%sif %s then\n", ind, t.condExpr(x.Cond))
+				saved := t.snapshot()
+				t.block(ind+"  ", append(append([]ast.Stmt{}, x.Body.List...), rest...), k, cont)
+				t.restore(saved)
+				fmt.Fprintf(t.sb, "%selse\n", ind)
+				t.block(ind+"  ", append(append([]ast.Stmt{}, eb.List...), rest...), k, cont)
+				t.restore(saved)
+				return
 			}
 			if x.Init != nil || x.Else != nil {
 				die("loops: %s: unsupported if (init/else)", t.cur.name)
@@ -1393,7 +1455,8 @@ func (t *loopTr) forLoop(ind string, f *ast.ForStmt, rest []ast.Stmt, k string, 
 var leanReserved = map[string]bool{"in": true, "at": true, "from": true, "fun": true, "do": true, "then": true, "end": true,
 	"open": true, "let": true, "have": true, "show": true, "with": true, "match": true, "where": true, "at_": false,
 	"by": true, "calc": true, "section": true, "namespace": true, "variable": true, "def": true, "theorem": true,
-	"instance": true, "structure": true, "class": true, "deriving": true, "mutual": true, "private": true, "protected": true}
+	"instance": true, "structure": true, "class": true, "deriving": true, "mutual": true, "private": true, "protected": true,
+	"_p": true}
 
 // translate one function or method
 func (t *loopTr) fn(file *ast.File, goName string, leanName string, proto bool) {
